@@ -22,9 +22,9 @@ ENTRY = dict(
                 "configuration are accepted. Goroutine schedules are sampled by the runs, not quantified by a theorem."),
     technique="Lean 4 proof (kernel theorems on the engine model) + lock-step model/implementation replay",
     lean_modules=["Bpmn.Props.C01", "Bpmn.Props.C01Conformance", "Bpmn.Props.EngineCurrent", "Bpmn.Props.C01Chain", "Bpmn.Props.C01Fragment", "Bpmn.Props.C01FragmentCurrent", "Bpmn.Props.EngineSteps"],
-    families=["c01", "c01d", "c01re", "c01twin", "c01patient"],
+    families=["c01", "c01d", "c01re", "c01twin", "c01patient", "c01twins"],
     facts_from=["Engine"],
-    rule=("a quarter of the generated c01 programs get one or two intermediate throw events without event definition in front of a top-level task / exclusive gateway (all its incoming flows end at the event: one token per merged branch, one per loop round passes it); c01patient: tokens waiting at a parallel join, an inclusive join, inside a sub-process and at tasks while the driver does nothing for 6.2 s of real time (waiting is not an event), then the run goes on; c01twin: TWO instances of one parsed definitions value with different data, alive at the same time, answered in a seeded interleaving (the second created after 0..3 answers of the first): each run judged on its own — nothing may carry over from one instance into the other; c01re: RE-ENTRY — the same inclusive fork / join pair activated 2..3 times in a loop with a different truth assignment in every round (what a gateway keeps between two activations must not leak from one decision into the next); c01d: 48 DIRECTED programs for the data a condition sees — [exclusive split on a variable]? -> parallel / inclusive "
+    rule=("c01twins: 2..3 tokens sent by a parallel fork into ONE node at the same time, for the node kinds that keep something per node (task, exclusive gateway with conditions, exclusive merge followed by a one-incoming parallel gateway, signal throw event, end event, sub-process with an exclusive block inside), both answer orders — every token does what a single one would (the question D43 answered for the sub-process, asked of the others); a quarter of the generated c01 programs get one or two intermediate throw events without event definition in front of a top-level task / exclusive gateway (all its incoming flows end at the event: one token per merged branch, one per loop round passes it); c01patient: tokens waiting at a parallel join, an inclusive join, inside a sub-process and at tasks while the driver does nothing for 6.2 s of real time (waiting is not an event), then the run goes on; c01twin: TWO instances of one parsed definitions value with different data, alive at the same time, answered in a seeded interleaving (the second created after 0..3 answers of the first): each run judged on its own — nothing may carry over from one instance into the other; c01re: RE-ENTRY — the same inclusive fork / join pair activated 2..3 times in a loop with a different truth assignment in every round (what a gateway keeps between two activations must not leak from one decision into the next); c01d: 48 DIRECTED programs for the data a condition sees — [exclusive split on a variable]? -> parallel / inclusive "
           "fork -> A || B (writes y) [|| sub-process whose inner task writes z]? -> join -> exclusive split on y / z: every "
           "fixed order of answering the pending tasks (it decides which token survives the join) x values written; the "
           "variable written by another token must be seen by the next condition, whichever token evaluates it. "
